@@ -157,6 +157,28 @@ func RunC17(c *Ctx) error {
 			}
 			batches = append(batches, &batch{drv: drv, jobs: jobs[i:j]})
 		}
+		// cold starts: the scheduled run is the first use of the generated code in its
+		// process (lazily initialised shared state is only ever initialised once per
+		// process, so each of these jobs gets a process of its own)
+		nCold := 6
+		if c.Tier == "thorough" {
+			nCold = 60
+		}
+		for _, v := range drv.Variants {
+			for k := 0; k < nCold; k++ {
+				nt := 2 + r.Intn(4)
+				job := harness.Job{ID: 0, Kind: "c17", Variant: v.Name, Cold: true, Knob: stackKnobs[r.Intn(len(stackKnobs))]}
+				for t := 0; t < nt; t++ {
+					job.Tasks = append(job.Tasks, harness.TaskSpec{Ops: pool.taskOps(r.Fork("t"))})
+				}
+				job.Schedule = gsim.Schedule{Policy: "uniform", Seed: r.U64()}
+				if k%3 == 2 {
+					// first task runs a little, then the others start
+					job.Schedule = gsim.Schedule{Policy: "preempt", Points: [][2]int{{1 + r.Intn(40), 1 % nt}, {60 + r.Intn(200), 0}}}
+				}
+				batches = append(batches, &batch{drv: drv, jobs: []harness.Job{job}})
+			}
+		}
 	}
 	err = c.ParallelDo(len(batches), func(w, i int) error {
 		b := batches[i]
